@@ -280,4 +280,6 @@ def jobs(tier):
     if tier == "thorough":
         out.append(job("C20", "naturals-semantic[n=2]", M, "h_naturals", dict(n=2, semantic=True),
                        budget_s=400, validate=False))
+    out.append(job("C20", "crosshair[strtobool]", "harness.ch_contracts", "check_strtobool",
+                   dict(file="harness/ch_contracts.py", func="check_strtobool", timeout=25 if tier == "quick" else 120), kind="crosshair"))
     return out
